@@ -441,6 +441,7 @@ func specFor(r *rand.Rand, clean bool) docSpec {
 	if r.Intn(12) == 0 {
 		spec.NoHeadings = true
 	}
+	spec.DeepLevels = r.Intn(4) == 0
 	return spec
 }
 
